@@ -63,7 +63,7 @@ fn real_format_def(ff: FileFormat, key: &str) -> Option<(FNum, FTy)> {
 }
 
 /// `4.3/<info defs>/<format defs>+4.4/…+4.5/…` (the format `DriverC09.parseDefTables` reads)
-fn full_defs() -> &'static str {
+pub fn full_defs() -> &'static str {
     static DEFS: std::sync::OnceLock<String> = std::sync::OnceLock::new();
     DEFS.get_or_init(|| {
         let mut out = vec![];
